@@ -119,6 +119,14 @@ func (e *env) extraTxs(r *gen.R, height int64, ent *int64) ([][]byte, []string) 
 		txs = append(txs, chain.SignTx(chainID, k, chain.MsgAppStake(k, amt, []string{chain.ChainHash}), chain.DefaultFee, next(), ""))
 		kinds = append(kinds, "appedit")
 	}
+	// node edit-stake up and down the stake bins (15e9 each): succeeds only when it reaches a higher bin
+	if r.Chance(1, 3) {
+		ks := append(append([]chain.Key{}, e.w.Vals...), e.w.Servs...)
+		k := ks[r.Intn(len(ks))]
+		amt := e.w.MinStake * int64(1+r.Intn(4))
+		txs = append(txs, chain.SignTx(chainID, k, chain.MsgNodeStake(k, amt, []string{chain.ChainHash}, "https://n.example:443", k.Addr, nil), chain.DefaultFee, next(), ""))
+		kinds = append(kinds, "nodeedit-bin")
+	}
 	if r.Chance(1, 8) {
 		k := e.w.Apps[r.Intn(len(e.w.Apps))]
 		txs = append(txs, chain.SignTx(chainID, k, chain.MsgAppUnstake(k.Addr), chain.DefaultFee, next(), ""))
